@@ -85,7 +85,9 @@ def _grid(tier_max):
 
 
 def _check_one(fasta, seq, pat, missed, mn, mx, clip, semi):
-    got = guarded(fasta.digest, seq, enzyme_regex=pat, missed_cleavages=missed, clip_nterm_methionine=clip,
+    # alternate between the pattern string and a compiled pattern (both are documented)
+    enz = re.compile(pat) if (len(seq) + missed + mn) % 2 else pat
+    got = guarded(fasta.digest, seq, enzyme_regex=enz, missed_cleavages=missed, clip_nterm_methionine=clip,
                   min_length=mn, max_length=mx, semi=semi, sig="digest")
     require(isinstance(got, set), "type", f"digest returned {type(got)}")
     req, allowed = digest_ref(seq, pat, missed, mn, mx, clip, semi)
